@@ -831,6 +831,10 @@ class Interp:
             return self.eval(node.body, new)
         if self.path.nofork:
             return self.inline_nofork(node, new)
+        # a container handed to an inlined function is the caller's: an in-place change made by the callee would be lost by the value semantics -> undecided
+        for pname, pval in list(new.vars.items()):
+            if isinstance(pval, SV) and pval.typ.kind in ('Seq', 'Set', 'Map'):
+                new.aliases[pname] = {'unknown': 'an argument of an inlined call', 'base_txt': '?', 'key': None, 'stale': False}
         try:
             self.exec_block(_strip_doc(node.body), new)
         except _Return as r:
